@@ -2055,6 +2055,16 @@ class FnKinds:
                     carr.cursor_of = tarr.key
                     self.ev("cursor-array-init", node, arr=carr, target=tarr, sel=_subscript(l)[1], sel_rng=self.rng(_subscript(l)[1]),
                             start=tsub[1], start_rng=self.rng(tsub[1]), sel_canon=self.canon(_subscript(l)[1]), start_canon=self.canon(tsub[1]))
+            elif v2 is not None and op == "=" and _subscript(v2) is not None and v2.get("k") != "Cast":
+                # array of integer write positions taken from a CSR offset array under construction: C[sel] = P[start]  (the index form of the cursor array)
+                parr = self.sub_arr(v2)
+                carr = self.array_of(_subscript(l)[0])
+                if parr is not None and carr is not None and parr is not carr and getattr(parr, "offset", False) and parr.fresh and carr.fresh and carr.owner == "local" \
+                        and not getattr(carr, "offset", False):
+                    carr.cursor_of = "@positions"
+                    carr.cursor_positions_from = parr.key
+                    self.ev("cursor-array-init", node, arr=carr, target=None, sel=_subscript(l)[1], sel_rng=self.rng(_subscript(l)[1]),
+                            start=v2, start_rng=self.rng(v2), sel_canon=self.canon(_subscript(l)[1]), start_canon=self.canon(v2), form="idx")
             return self.subscript_event(l, "write", val=val, op=op)
         d = _is_deref(l)
         if d is not None and d.get("k") == "Ref" and d.get("d") in self.cursor:
@@ -2140,7 +2150,7 @@ class FnKinds:
             self.lvalue_write(tgt, n, val=None, op="++" if inc[1] == 1 else "--")
             return
         if k == "OpCall" and n.get("op") == "=" and len(n.get("a", [])) == 2 and _subscript(n["a"][0]) is not None \
-                and self.array_of(_subscript(n["a"][0])[0]) is not None:
+                and self.sub_arr(n["a"][0]) is not None:
             self.expr(n["a"][1])
             self.lvalue_write(n["a"][0], n, val=n["a"][1], op="=")
             return
